@@ -277,16 +277,23 @@ def check_pvs(f, e0, eps, shape):
     return out
 
 
+ISO = np.array([1 / 3, 1 / 3, 1 / 3])        # the caller's array of depolarisation factors, reused for every call of a sweep
+
+
 def check_mg(f, e0, eps):
     m = gmf()
     from smrt.emmodel.sce_common import permittivity_hashin_shtrikman
     out = []
     a = complex(m.maxwell_garnett_for_spheres(f, e0, eps))
     for name, v in [("general-default", m.maxwell_garnett(f, e0, eps)),
-                    ("general-depol-1/3", m.maxwell_garnett(f, e0, eps, depol_xyz=np.array([1 / 3, 1 / 3, 1 / 3]))),
+                    ("general-depol-1/3", m.maxwell_garnett(f, e0, eps, depol_xyz=ISO)),
                     ("hashin-shtrikman", permittivity_hashin_shtrikman(f, e0, eps))]:
         if rel(a, complex(v)) > RT:
             out.append(("mg:spheres-vs-" + name, f"maxwell_garnett_for_spheres={a} but {name}={complex(v)} at f={f}, e0={e0}, eps={eps}", complex(v), a))
+    if not np.array_equal(ISO, np.array([1 / 3, 1 / 3, 1 / 3])):
+        out.append(("mg:depol-argument-modified", f"maxwell_garnett({f}, {e0}, {eps}, depol_xyz=A) changed the caller's array A to {ISO.tolist()}",
+                    ISO.tolist(), [1 / 3] * 3))
+        ISO[:] = 1 / 3
     for ff, want in [(0., e0), (1., eps)]:
         v = complex(m.maxwell_garnett(ff, e0, eps))
         if rel(v, want) > RT:
